@@ -35,12 +35,12 @@ SPECS = {
     },
     "C01": {
         "id": "C01", "runners": ["RunC01"], "translators": [translate.serializer_tables],
-        "partial": ["C01_full (decode = interp) is a theorem only for integer columns; all other kinds: per-case specification oracle + byte-exact model comparison"],
+        "partial": ["C01_full (decode = interp) is a theorem for the builder core (see assumptions) at any nesting; all other kinds: per-case specification oracle"],
         "info_meaning": "[cases whose schema is inside the builder model (compared array by array, byte for byte); cases with impl Ok fully judged by decode = interp]",
         "assumptions": [
             "logical content = decode (coq/Arrow/Arr.v); documented mapping = interp (coq/Ser/Value.v); both are specifications written from the Arrow format and the crate documentation, not from the builders",
             "float presentations into non-float columns, temporal and decimal strings are not judged here (ISkip): see C14, C15",
-            "builder model (coq/Ser/Builder.v) covers Boolean, integers, Utf8/LargeUtf8, List/LargeList, Struct; other kinds are judged by the specification oracle only",
+            "builder model (coq/Ser/Builder.v) covers Boolean, integers, same-width Float32/Float64, the integer presentation of Date32/64, Time32/64, Timestamp (no / UTC zone) and Duration, Utf8/LargeUtf8, List/LargeList, Struct; other kinds and lossy presentations (float casts, temporal / decimal text) are judged by the specification oracle only",
             "to_marrow front end only in this stream; arrow/arrow2/ArrayBuilder front ends are compared in C19/C10",
         ],
     },
@@ -50,7 +50,7 @@ SPECS = {
         "info_meaning": "[cases whose schema is inside the builder model; cases with impl Ok fully judged by decode = interp]",
         "assumptions": [
             "well-formedness = wf_batch strict (coq/Arrow/Wf.v), evaluated on the implementation's arrays for all data types; metadata and full data type equality are compared on the Rust side (Array::data_type() == field.data_type), arrow-rs validate_full is run as an independent referee",
-            "builder model covers Boolean, integers, Utf8/LargeUtf8, List/LargeList, Struct",
+            "builder model covers Boolean, integers, same-width floats, integer-valued temporal columns, Utf8/LargeUtf8, List/LargeList, Struct",
         ],
     },
     "C10": {
